@@ -2075,6 +2075,16 @@ def _iter_items(v):
     return None
 
 
+def _is_err(E, st, v):
+    """the value is definitely the Err variant of a Result"""
+    vs = enum_variants(E, st, v) if v[0] in ('E', 'T') else None
+    return vs is not None and set(vs) == {1} and len(vs[1]) == 1 and v[0] == 'E' and _looks_result(v)
+
+
+def _looks_result(v):
+    return True
+
+
 def _iter_filtered(v):
     """(items, position, pending filter or None) of a literal iterator, also behind a lazy `filter`"""
     if v[0] == 'O' and v[1] == 'iter' and len(v[2]) > 3 and v[2][2] is not None:
@@ -2148,22 +2158,34 @@ def iter_adaptors(E, frame, b, t, sts, c, quiet):
         if item in ('map', 'filter_map', 'flat_map', 'map_while') and cls:
             ci, body = cls[0]
             items = _iter_items(args[0])
-            if item == 'map' and items is not None and len(args[0][2]) > 3:
-                # literal / constant-range source: the closure is applied element by element
+            if item == 'map' and items is not None and len(args[0][2]) > 3 and len(items) - args[0][2][3] <= 40:
+                # literal / constant-range source: the closure is applied element by element, in order, each
+                # application exactly once with its return paths kept apart (a closure that reads from a
+                # stream has an Ok and an Err path per element).  A Result-returning closure stops being
+                # applied after its first Err (what collect::<Result<..>>() and `?` loops do).
                 pos0 = args[0][2][3]
-                outs = []
-                r = BOT
+                cur = [(s2, ())]
                 for it in items[pos0:]:
-                    s2, ri = E.run_closure_any(frame, b, t, s2, ci, body, quiet, arg_vals=[it])
-                    if ri == BOT:
-                        outs = None
+                    nxt = []
+                    for s_c, done in cur:
+                        if done and _is_err(E, s_c, done[-1]):
+                            nxt.append((s_c, done))
+                            continue
+                        for s_f, r_f in E.run_closure_once(frame, b, t, s_c, ci, body, quiet, [it]):
+                            if r_f != BOT:
+                                nxt.append((s_f, done + (E.deep_resolve(s_f, r_f) if r_f[0] in ('I', 'F', 'E', 'A') else r_f,)))
+                    cur = nxt
+                    if len(cur) > 24:
+                        cur = None
                         break
-                    outs.append(ri)
-                    r = join(r, E.deep_resolve(s2, ri))
-                if outs is not None:
-                    res = ('O', 'iter', (r if r != BOT else ('T', None, None), const_int(len(outs)), tuple(outs), 0))
-                    E.write_dest(s2, frame, t, res)
-                    out.append(s2)
+                if cur is not None:
+                    for s_c, done in cur:
+                        r = BOT
+                        for x in done:
+                            r = join(r, x)
+                        res = ('O', 'iter', (r if r != BOT else ('T', None, None), const_int(len(done)), tuple(done), 0))
+                        E.write_dest(s_c, frame, t, res)
+                        out.append(s_c)
                     continue
             if ln[2] == 0:
                 r = BOT
@@ -2470,6 +2492,27 @@ def iter_collect(E, st, frame, b, t, c, args):
     dty = E.dest_ty(frame, t)
     p = _iter_payload(args[0])
     ty = E.types.get(dty) if dty is not None else None
+    if ty is not None and ty['k'] == 'adt' and ty['name'].endswith('result::Result') and ty.get('args') and p is not None:
+        # collect::<Result<Vec<T>, E>>(): Ok(all payloads) or the first Err
+        its = _iter_items(args[0])
+        okty = E.types.get(ty['args'][0])
+        if its is not None and len(args[0][2]) > 3 and E.types.is_seq_adt(okty):
+            rest = its[args[0][2][3]:]
+            pay = []
+            for x in rest:
+                vs = enum_variants(E, st, x) if x[0] in ('E', 'T') else None
+                if vs is None or len(vs) != 1:
+                    pay = None
+                    break
+                (vi, fs), = vs.items()
+                if vi == 1:
+                    return ('E', None, ((1, tuple(fs)),))
+                pay.append(fs[0])
+            if pay is not None:
+                el = BOT
+                for x in pay:
+                    el = join(el, E.deep_resolve(st, x))
+                return ('E', None, ((0, (('S', const_int(len(pay)), el if el != BOT else ('T', E.types.seq_elem(okty), None), tuple(pay)),)),))
     if ty is not None and E.types.is_seq_adt(ty):
         if p is not None:
             el, ln = p
